@@ -7,5 +7,5 @@ CONSTANTS
   MaxMut = 1
 VIEW view
 INVARIANTS TypeOK CacheCoherent Proportional Bounded
-PROPERTIES CopyIndependent RejectNoChange ObserversPure
+PROPERTIES CopyIndependent RejectNoChange ObserversPure ReloadPreservesProposer
 CHECK_DEADLOCK FALSE
